@@ -1,5 +1,5 @@
 CONSTANTS
-  Policies = {"None", "Basic256", "Basic256Sha256"}
+  Policies = {"None", "Basic256Sha256", "ECC_nistP256"}
   Levels = {0, 1, 2}
   MaxLen = 3
   Emit = TRUE
